@@ -225,6 +225,22 @@ pub fn run(ctx: &Ctx) {
         |v, l| check(&Shape::DisplayStr, v, l),
     );
 
+    // Display impls that emit a short piece, a long piece, a short piece (every order of sizes around typical staging sizes)
+    {
+        let sizes = [0usize, 1, 7, 15, 16, 17, 31, 32, 33, 63, 64, 65, 100, 127, 128, 129, 200];
+        let total = (sizes.len() * sizes.len() * 4) as u64;
+        ctx.par_range("display-piece-sizes", total, move |i, l| {
+            let i = i as usize;
+            let a = sizes[i % sizes.len()];
+            let b = sizes[(i / sizes.len()) % sizes.len()];
+            let c = [0usize, 3, 64, 70][i / (sizes.len() * sizes.len())];
+            // four pieces so that every formatter route of the Display double gets one
+            let pieces = vec!["E".repeat(a), "m".repeat(b), "t".repeat(c), "é".repeat(a % 5)];
+            l.class("display-piece-sizes");
+            check(&Shape::DisplayStr, &Value::Pieces(pieces.clone()), l)?;
+            check(&Shape::Tuple(vec![Shape::U8, Shape::DisplayStr, Shape::U16]), &Value::List(vec![Value::U(1), Value::Pieces(pieces), Value::U(300)]), l)
+        });
+    }
     if ctx.tier == Tier::Thorough {
         ctx.par_range("exhaustive-f32", 1u64 << 32, |i, l| {
             l.eval();
